@@ -4,6 +4,7 @@
 # the overlay; all build output, evidence and replays land in a scratch upper layer that is
 # removed afterwards.
 # usage: tools/mutant_run.sh <patch-file> <tier> <Cxx> [<Cxx> ...]
+# VERIF_LOWER=<dir> uses a frozen copy of /verif as the lower layer (so that /verif can be edited while a long sweep runs).
 # MUT_STOP_AT_FIRST=1 stops after the first check that reports a violation.
 # prints one line per check:  <Cxx> DETECTED|MISSED|INCONCLUSIVE  <first signature>
 PATCH="$(realpath "$1")"; TIER="$2"; shift 2
@@ -12,7 +13,7 @@ mkdir -p $S/rup $S/rwork $S/vup $S/vwork
 cp "$PATCH" $S/patch.diff
 unshare -m bash -c "
   mount -t overlay overlay -o lowerdir=/repo,upperdir=$S/rup,workdir=$S/rwork /repo || exit 90
-  mount -t overlay overlay -o lowerdir=/verif,upperdir=$S/vup,workdir=$S/vwork /verif || exit 91
+  mount -t overlay overlay -o lowerdir=${VERIF_LOWER:-/verif},upperdir=$S/vup,workdir=$S/vwork /verif || exit 91
   cd /repo && git apply $S/patch.diff || { echo 'PATCH DOES NOT APPLY'; exit 92; }
   cd /verif
   for c in $*; do
